@@ -41,7 +41,9 @@ func runC32(c *eng.Ctx) {
 		c.Check("R1", f.Where(), k[0]+" maps a histogram to `"+strings.TrimPrefix(want, "return ")+"`", ok && strings.Contains(nodeText(f.Body), "return simpleHistogramFunc(vectorVals, enh, func(h *histogram.FloatHistogram) float64 {"), p.Pos(f.Body.Pos()), "")
 	}
 	sh := c.Fn(Q + "simpleHistogramFunc")
-	app := eng.Node("enh.Out = append(enh.Out, Sample{…})", func(g *eng.Graph, n ast.Node) bool { return strings.HasPrefix(nodeText(n), "enh.Out = append(enh.Out, Sample{") })
+	app := eng.Node("enh.Out = append(enh.Out, Sample{…})", func(g *eng.Graph, n ast.Node) bool {
+		return strings.HasPrefix(nodeText(n), "enh.Out = append(enh.Out, Sample{")
+	})
 	sh.Has("R1", app, 1)
 	sh.Only("R1", app, "emits f(el.H) for histogram samples only", func(l eng.Loc) bool {
 		return sh.UnderCond(l, "el.H != nil") && strings.Contains(nodeText(l.Node), "F: f(el.H)")
